@@ -1709,6 +1709,304 @@ def container_item(item, seed=0):
     return t
 
 
+# ----------------------------------------------------------------------------- user SUBCLASSES of the documented extension points
+# BaseInterval documents get_limits(values) as THE hook of a user interval. Three user intervals — limits = full range of the data's
+# dtype (dtype-dependent), limits = a data-dependent inner range, constant limits — used directly (itv(data)) and through
+# CustomNormalization (assigned to the public attribute norm.interval; the constructor only takes type names), with library stretches,
+# a subclass of a library stretch and a user-written stretch assigned to norm.stretch. Oracle: the limits the interval DECLARES for the
+# caller's data (itv.get_limits(data), data as the caller passed it) are sent to 0 and 1, the linear case is the exact affine map of
+# those limits, output in [0,1] and monotone. Tolerance TOL64 / TOL32 (observed worst on HEAD 2.2e-16 / 6e-8).
+SUBCLASS_DTYPES = ["uint8", "int8", "uint16", "int16", "int32", "float32", "float64"]
+
+
+def user_intervals():
+    cn = _lib()
+
+    class FullRangeOfDtype(cn.BaseInterval):
+        """Integer data: the whole range of its dtype (0..255 for uint8); float data: finite min / max."""
+
+        def get_limits(self, values):
+            values = np.asarray(values)
+            if np.issubdtype(values.dtype, np.integer):
+                info = np.iinfo(values.dtype)
+                return float(info.min), float(info.max)
+            v = values[np.isfinite(values)]
+            return float(v.min()), float(v.max())
+
+    class InnerRange(cn.BaseInterval):
+        """Data-dependent: the finite range shrunk by a quarter on each side."""
+
+        def get_limits(self, values):
+            v = np.asarray(values, dtype=np.float64)
+            v = v[np.isfinite(v)]
+            lo, hi = float(v.min()), float(v.max())
+            return lo + 0.25 * (hi - lo), hi - 0.25 * (hi - lo)
+
+    class Constant(cn.BaseInterval):
+        def get_limits(self, values):
+            return 2.0, 9.0
+
+    return {"full_range_of_dtype": FullRangeOfDtype, "inner_range": InnerRange, "constant": Constant}
+
+
+def user_stretches():
+    cn = _lib()
+
+    class MyPower(cn.PowerLawStretch):
+        """A subclass of a library stretch, nothing overridden."""
+
+    class Squared:
+        """A user-written stretch following the library protocol: __call__(values, copy=True), inverse."""
+
+        def __call__(self, values, copy=True):
+            values = np.array(values, copy=copy)
+            np.clip(values, 0.0, 1.0, out=values)
+            np.multiply(values, values, out=values)
+            return values
+
+        @property
+        def inverse(self):
+            return cn.PowerLawStretch(0.5)
+
+    return {"library:linear": lambda: cn.LinearStretch(), "library:logarithmic": lambda: cn.LogarithmicStretch(1000.0), "library:asinh": lambda: cn.InverseHyperbolicSineStretch(0.1),
+            "subclass:MyPower(2)": lambda: MyPower(2.0), "user:Squared": lambda: Squared()}
+
+
+def subclass_image(dtname, seed, touch):
+    dt = np.dtype(dtname)
+    rng = np.random.default_rng([seed, 20, 515, SUBCLASS_DTYPES.index(dtname), int(touch)])
+    if dt.kind in "iu":
+        info = np.iinfo(dt)
+        span = int(info.max) - int(info.min)
+        lo, hi = (int(info.min), int(info.max)) if touch else (int(info.min) + span // 8, int(info.max) - span // 4)
+        vals = [int(x) for x in rng.integers(lo, hi, size=12, dtype=np.int64)]
+        vals[0], vals[11] = lo, hi
+    else:
+        vals = [float(x) for x in np.round(rng.uniform(-3.0, 12.0, size=12), 3)]
+        vals[0], vals[11] = -3.0, 12.0
+        if touch:
+            vals[5] = np.nan
+    return np.array(vals, dtype=dt).reshape(3, 4)
+
+
+def subclass_item(item, seed=0):
+    dtname = item
+    cn = _lib()
+    t = Tally()
+    tol = TOL32 if dtname == "float32" else TOL64
+    for touch in (False, True):
+        a = subclass_image(dtname, seed, touch)
+        af = a.astype(np.float64)
+        finm = np.isfinite(af)
+        for iname, Icls in user_intervals().items():
+            for sname, mk in [("direct", None)] + list(user_stretches().items()):
+                case = {"part": "subclass", "dtype": dtname, "touch": touch, "interval": iname, "stretch": sname}
+                cls = {"relation": None, "user_interval": iname, "stretch": sname.split(":")[0], "dtype_kind": dtype_kind(a.dtype), "via": "subclass"}
+                shown = f"user interval {iname} on {dtname}(3,4) data [{af[finm].min():g} .. {af[finm].max():g}]" + (" used directly" if mk is None else f" assigned to norm.interval, stretch {sname}")
+                t.extra["subclass_points"] += 1
+                try:
+                    with warnings.catch_warnings():
+                        warnings.simplefilter("ignore")
+                        with np.errstate(all="ignore"):
+                            itv = Icls()
+                            lo, hi = [float(x) for x in itv.get_limits(a.copy())]  # what the interval declares for the caller's data
+                            if mk is None:
+                                out = itv(a.copy())
+                            else:
+                                norm = cn.CustomNormalization("manual", "linear")
+                                norm.interval = itv
+                                norm.stretch = mk()
+                                out = norm(a.copy())
+                except Exception as e:
+                    t.fail(dict(cls, relation="raises"), case, f"{shown}: raised {type(e).__name__}: {e}")
+                    t.case(key=None, nontrivial=False, outcome=("subclass", "exc"))
+                    continue
+                o = np.asarray(np.ma.getdata(out), dtype=np.float64)
+                m = np.ma.getmaskarray(out)
+                probs = []
+                if o.shape != a.shape:
+                    probs.append(("shape", f"output shape {o.shape}"))
+                else:
+                    of, xf = o[finm], af[finm]
+                    if m[finm].any() or np.isnan(of).any() or of.min() < -tol or of.max() > 1 + tol:
+                        probs.append(("into_unit_interval", f"finite entries map to {np.round(of, 4).tolist()} (masked: {m[finm].tolist()})"))
+                    else:
+                        order = np.argsort(xf, kind="stable")
+                        if np.any(np.diff(of[order]) < -tol):
+                            probs.append(("monotone", f"sorted by input the outputs are {np.round(of[order], 4).tolist()}"))
+                        if lo < hi:
+                            low, up = xf <= lo, xf >= hi
+                            if low.any() and np.abs(of[low]).max() > tol:
+                                probs.append(("lower_limit_to_0", f"the interval declares limits ({lo!r}, {hi!r}) for this data; entry {xf[low][0]!r} <= lower limit maps to {of[low][0]!r}, expected 0"))
+                            if up.any() and np.abs(of[up] - 1.0).max() > tol:
+                                probs.append(("upper_limit_to_1", f"the interval declares limits ({lo!r}, {hi!r}) for this data; entry {xf[up][0]!r} >= upper limit maps to {of[up][0]!r}, expected 1"))
+                            if sname in ("direct", "library:linear"):
+                                want = np.clip((xf - lo) / (hi - lo), 0.0, 1.0)
+                                k = int(np.argmax(np.abs(of - want)))
+                                if abs(of[k] - want[k]) > tol:
+                                    probs.append(("linear_is_affine", f"the interval declares limits ({lo!r}, {hi!r}) for this data; entry {xf[k]!r} maps to {of[k]!r}, the affine map of the declared limits gives {want[k]!r}"))
+                    if a.dtype.kind == "f" and np.isnan(af).any() and mk is not None and not m[np.isnan(af)].all():
+                        probs.append(("nan_masked", "NaN came back unmasked"))
+                if probs:
+                    probs.sort(key=lambda p_: RELATION_ORDER.index(p_[0]))
+                    more = f" [also: {', '.join(r for r, _ in probs[1:])}]" if len(probs) > 1 else ""
+                    t.fail(dict(cls, relation=probs[0][0]), case, f"{shown}: {probs[0][1]}{more}")
+                t.case(key=("subclass", dtname, touch, iname, sname), nontrivial=True, outcome=("subclass", iname, sname, dtname, touch, not probs))
+    return t
+
+
+# ----------------------------------------------------------------------------- COPIES / modified copies of used objects
+# copy.copy, copy.deepcopy, pickle round trip, dataclasses.replace with one parameter changed, attribute assignment after use — on every
+# stretch and interval class with every ordered pair of parameters of the alphabet, and on CustomNormalization objects; the source
+# object used before (called on data) vs never used. Oracle: the resulting object behaves bit for bit like a freshly constructed object
+# with the same parameters (forward, declared inverse, inverse(forward(y)) == y on the 101-grid within TOL_INV; intervals on data).
+def copy_specs():
+    """(label, class name, parameter name, values) for every dataclass of the module."""
+    return [
+        ("power", "PowerLawStretch", "power", [0.25, 0.5, 2.0, 3.0]),
+        ("logarithmic", "LogarithmicStretch", "a", [1.0, 10.0, 1000.0]),
+        ("inverse_logarithmic", "InverseLogarithmicStretch", "a", [1.0, 10.0, 1000.0]),
+        ("asinh", "InverseHyperbolicSineStretch", "a", [0.01, 0.1, 1.0]),
+        ("sinh", "HyperbolicSineStretch", "a", [0.2, 1.0 / 3.0, 1.0]),
+        ("linear", "LinearStretch", "slope", [1.0, 0.5, 2.0]),
+        ("linear", "LinearStretch", "intercept", [0.0, 0.25]),
+        ("manual", "ManualInterval", "vmin", [1.0, 3.0, None]),
+        ("manual", "ManualInterval", "vmax", [8.0, 20.0, None]),
+        ("centered", "CenteredInterval", "vcenter", [0.0, 5.0]),
+        ("centered", "CenteredInterval", "half_range", [4.0, 10.0, None]),
+        ("quantile", "QuantileInterval", "lower_quantile", [0.02, 0.25]),
+        ("quantile", "QuantileInterval", "upper_quantile", [0.75, 0.98]),
+    ]
+
+
+COPY_DATA = [5.0, 2.0, 7.0, 3.5, 9.0, 4.0, 6.0, 8.0, 2.5, 7.5, 0.5, 12.0]
+
+
+def behaviour(obj, is_stretch):
+    """Comparable record of what an object does (on fresh input every time)."""
+    rec = []
+    with warnings.catch_warnings():
+        warnings.simplefilter("ignore")
+        with np.errstate(all="ignore"):
+            if is_stretch:
+                grid = np.linspace(0.0, 1.0, 101)
+                f = np.asarray(obj(grid.copy()), dtype=np.float64)
+                rec.append(f.tobytes())
+                inv = obj.inverse
+                rec.append(np.asarray(inv(grid.copy()), dtype=np.float64).tobytes())
+                back = np.asarray(inv(f.copy()), dtype=np.float64)
+                return rec, f, float(np.nanmax(np.abs(back - grid))) if not np.isnan(back).all() else float("inf")
+            for dt in ("float64", "int16"):
+                x = np.array(COPY_DATA, dtype=dt)
+                rec.append(tuple(float(v) for v in obj.get_limits(x.copy())))
+                rec.append(np.asarray(obj(x.copy()), dtype=np.float64).tobytes())
+            return rec, None, 0.0
+
+
+def copies_item(item, seed=0):
+    import copy
+    import dataclasses
+    import pickle
+
+    label, cname, pname, values = item
+    cn = _lib()
+    C = getattr(cn, cname, None)
+    t = Tally()
+    if C is None:
+        return t
+    is_stretch = not cname.endswith("Interval")
+    kinds = ["copy.copy", "copy.deepcopy", "pickle", "dataclasses.replace", "attribute_assignment"]
+    for old in values:
+        for new in values:
+            for used in (False, True):
+                for kind in kinds:
+                    if kind in ("copy.copy", "copy.deepcopy", "pickle") and new != old:
+                        continue  # plain copies keep the parameter
+                    if kind in ("dataclasses.replace", "attribute_assignment") and new == old and not used:
+                        continue
+                    case = {"part": "copies", "class": cname, "param": pname, "old": old, "new": new, "used": used, "kind": kind}
+                    cls = {"relation": None, "class": cname, "kind": kind, "used_before": used, "via": "copies"}
+                    shown = f"{cname}({pname}={old!r})" + (" after use" if used else " never used") + f" -> {kind}" + (f" with {pname}={new!r}" if kind in ("dataclasses.replace", "attribute_assignment") else "")
+                    t.extra["copies_points"] += 1
+                    try:
+                        src = C(**{pname: old})
+                        if used:
+                            behaviour(src, is_stretch)
+                        if kind == "copy.copy":
+                            obj = copy.copy(src)
+                        elif kind == "copy.deepcopy":
+                            obj = copy.deepcopy(src)
+                        elif kind == "pickle":
+                            obj = pickle.loads(pickle.dumps(src))
+                        elif kind == "dataclasses.replace":
+                            obj = dataclasses.replace(src, **{pname: new})
+                        else:
+                            setattr(src, pname, new)
+                            obj = src
+                        got, fwd, invdev = behaviour(obj, is_stretch)
+                        want, fwd0, invdev0 = behaviour(C(**{pname: new}), is_stretch)
+                    except Exception as e:
+                        try:
+                            C(**{pname: new})
+                            t.fail(dict(cls, relation="raises"), case, f"{shown}: raised {type(e).__name__}: {e}")
+                        except Exception:
+                            t.extra["copies_parameter_rejected"] += 1  # the fresh object is rejected as well
+                        t.case(key=None, nontrivial=False, outcome=("copies", "exc"))
+                        continue
+                    probs = []
+                    if got != want:
+                        extra_ = ""
+                        if is_stretch:
+                            extra_ = f": forward on [0,1] reaches {float(np.nanmax(fwd)):.4g}, the fresh object reaches {float(np.nanmax(fwd0)):.4g}"
+                        probs.append(("behaves_like_fresh_object", f"differs from a freshly constructed {cname}({pname}={new!r}){extra_}"))
+                    if is_stretch and not invdev <= max(TOL_INV, 20 * invdev0):
+                        probs.append(("stretch_inverse_identity", f"inverse(forward(y)) deviates from y by {invdev:.3g} on the 101-grid (fresh object: {invdev0:.3g})"))
+                    for rel, msg in probs:
+                        t.fail(dict(cls, relation=rel), dict(case, relation=rel), f"{shown}: {msg}")
+                    t.case(key=("copies", cname, pname, old, new, used, kind), nontrivial=True, outcome=("copies", cname, kind, used, tuple(r for r, _ in probs)))
+    return t
+
+
+def norm_copies_item(item, seed=0):
+    """Copies of CustomNormalization objects (limits at call time / frozen), used before vs never used, and a stretch parameter
+    assigned after use: same outputs as a freshly built object."""
+    import copy
+    import pickle
+
+    it, st = item
+    cn = _lib()
+    t = Tally()
+    x = np.array(COPY_DATA).reshape(3, 4)
+    y = x * 3.0 - 4.0
+    kw = {"interval_type": it, "stretch_type": st[0]}
+    kw.update(st[1])
+    for mode in MODES:
+        for used in (False, True):
+            for kind in ("copy.copy", "copy.deepcopy", "pickle"):
+                case = {"part": "norm-copies", "kwargs": kw, "mode": mode, "used": used, "kind": kind}
+                cls = {"relation": None, "class": "CustomNormalization", "kind": kind, "used_before": used, "mode": mode, "via": "copies"}
+                t.extra["copies_points"] += 1
+                try:
+                    with warnings.catch_warnings():
+                        warnings.simplefilter("ignore")
+                        src = cn.CustomNormalization(data=x.copy() if mode == "frozen" else None, **kw)
+                        if used:
+                            src(y.copy())
+                        obj = copy.copy(src) if kind == "copy.copy" else copy.deepcopy(src) if kind == "copy.deepcopy" else pickle.loads(pickle.dumps(src))
+                        fresh = cn.CustomNormalization(data=x.copy() if mode == "frozen" else None, **kw)
+                        got = [np.ma.filled(obj(z.copy()).astype(float), np.nan).tobytes() for z in (x, y)]
+                        want = [np.ma.filled(fresh(z.copy()).astype(float), np.nan).tobytes() for z in (x, y)]
+                        src_after = [np.ma.filled(src(z.copy()).astype(float), np.nan).tobytes() for z in (x, y)]
+                except Exception as e:
+                    t.extra["copies_copy_kind_rejected:" + kind] += 1
+                    t.case(key=None, nontrivial=False, outcome=("norm-copies", kind, "rejected", type(e).__name__))
+                    continue
+                if got != want or src_after != want:
+                    t.fail(dict(cls, relation="behaves_like_fresh_object"), case, f"CustomNormalization({kw}, mode={mode})" + (" after use" if used else " never used") + f" -> {kind}: " + ("the copy" if got != want else "the source after copying") + " gives different outputs from a freshly built object")
+                t.case(key=("norm-copies", str(kw), mode, used, kind), nontrivial=True, outcome=("norm-copies", kind, used, mode, got == want))
+    return t
+
+
 # ----------------------------------------------------------------------------- stretch o inverse
 def stretch_objects():
     cn = _lib()
@@ -1876,6 +2174,13 @@ def run(ctx):
     if exm["magnitude_points_below_1"] < 3000 or exm["magnitude_points_above_1"] < 3000 or exm["container_points"] < 800 or exm["container_accepted:ma_nan_outside_mask"] < 20:
         raise Broken("magnitude / container families degenerate")
 
+    # user SUBCLASSES and COPIES of used objects
+    ctx.pmap(subclass_item, list(SUBCLASS_DTYPES), chunk=1, label="subclasses", seed=ctx.seed)
+    ctx.pmap(copies_item, copy_specs(), chunk=1, label="copies", seed=ctx.seed)
+    ctx.pmap(norm_copies_item, [(it, st) for it in ("quantile", "manual", "centered") for st in STRETCHES[::3]], chunk=2, label="norm-copies", seed=ctx.seed)
+    if ctx.tally.extra["subclass_points"] < 200 or ctx.tally.extra["copies_points"] < 500:
+        raise Broken("subclass / copies families degenerate")
+
     worst = inverse_identities(ctx.fail, ctx.tally)
     ctx.say(f"stretch/inverse identities: {ctx.tally.extra['inverse_identity_points']} compositions, worst deviation {worst:.3g}")
 
@@ -1896,6 +2201,18 @@ def run(ctx):
             "presets": names,
             "resolve_forms": [f[0] for f in resolve_forms([(0, Fraction(0)), (1, Fraction(1))])] if resolve is not None else [],
             "display_norms": (names + DISPLAY_EXTRA) if ditems else [],
+            "subclass_family": {
+                "user_intervals": ["full_range_of_dtype (dtype-dependent get_limits)", "inner_range (data-dependent)", "constant"],
+                "use": ["directly: itv(data)", "assigned to norm.interval with library stretches, a subclass of PowerLawStretch and a user-written stretch assigned to norm.stretch"],
+                "dtypes": SUBCLASS_DTYPES,
+                "oracle": "the limits get_limits declares for the caller's data map to 0 and 1, affine for the linear case, [0,1], monotone",
+            },
+            "copies_family": {
+                "objects": [f"{c}.{p_} over {v}" for _, c, p_, v in copy_specs()] + ["CustomNormalization (3 intervals x 4 stretches x 2 modes)"],
+                "kinds": ["copy.copy", "copy.deepcopy", "pickle", "dataclasses.replace (one parameter changed, every ordered pair)", "attribute assignment after use"],
+                "states": ["never used", "used before"],
+                "oracle": "bit-identical behaviour to a freshly constructed object with the same parameters; inverse(forward(y)) == y",
+            },
             "magnitude_family": {
                 "scales": {k: [f"2**{e}" for e in v] for k, v in MAG_EXPONENTS.items()},
                 "image": "(3,4), multiples of 1/64 in [0.125, 4], with / without a pedestal of 8 (same magnitude), with / without NaN, +inf, -inf",
@@ -1951,6 +2268,24 @@ def replay(ctx, case):
     if "inverse" in case:
         t = Tally()
         inverse_identities(lambda cls, c, msg: (ctx.fail(cls, c, msg) if c == case else None), t)
+        return
+    if case.get("part") in ("subclass", "copies", "norm-copies"):
+        if case["part"] == "subclass":
+            t = subclass_item(case["dtype"], seed=ctx.seed)
+        elif case["part"] == "copies":
+            t = copies_item([sp for sp in copy_specs() if sp[1] == case["class"] and sp[2] == case["param"]][0], seed=ctx.seed)
+        else:
+            t = Tally()
+            for it_ in ("quantile", "manual", "centered"):
+                for st_ in STRETCHES[::3]:
+                    t.merge(norm_copies_item((it_, st_), seed=ctx.seed))
+        from mc.harness import jsonable as _js
+
+        for f in t.fails:
+            if f["case"] == _js(case) or f["case"] == case:
+                print("  observed:", f["msg"])
+                ctx.fail(f["cls"], case, f["msg"])
+        print("  expected: " + ("the declared limits map to 0 and 1 (affine in between), [0,1], monotone" if case["part"] == "subclass" else "the same behaviour as a freshly constructed object with the same parameters"))
         return
     if case.get("part") in ("magnitude", "container"):
         if case["part"] == "magnitude":
